@@ -87,6 +87,7 @@ _SAFE_METHODS = {
     "bytes": ("decode", "startswith", "endswith"),
     "tuple": ("index", "count"),
     "int": ("to_bytes", "bit_length"),
+    "set": ("add", "discard", "update", "union", "copy"),
 }
 _PY_TYPES = {"int": int, "float": float, "str": str, "bytes": bytes, "list": list, "dict": dict, "tuple": tuple, "bool": bool, "bytearray": bytearray, "set": set}
 
@@ -129,6 +130,11 @@ class Evaluator:
                 return {"True": True, "False": False, "None": None}[e.id]
             if e.id == "NotImplemented":
                 return NotImplemented
+            nh = getattr(self, "name_hook", None)
+            if nh is not None:
+                r = nh(e.id)
+                if r is not _MISSING:
+                    return r
             raise Unsupported(f"free name {e.id}")
         if isinstance(e, (ast.Tuple, ast.List)):
             vals = [self.ev(x) for x in e.elts]
@@ -365,6 +371,8 @@ class Evaluator:
                         return isinstance(args[0], tuple(_PY_TYPES[n] for n in names))
                     raise Unsupported(f"isinstance(_, {cls})")
                 if fn.id == "type" and len(args) == 1:
+                    if hasattr(args[0], "sa_type"):
+                        return args[0].sa_type()
                     return f"<type {type(args[0]).__name__}>"
                 if fn.id == "int" and len(args) == 1 and isinstance(args[0], (bool, int)):
                     return int(args[0])
@@ -378,8 +386,13 @@ class Evaluator:
                     raise PyRaise("TypeError" if not isinstance(args[0], int) else "ValueError")
                 if fn.id == "bool" and len(args) == 1:
                     return self.truth(args[0])
-                if fn.id == "len" and len(args) == 1 and isinstance(args[0], (tuple, list, str, dict, bytes)):
+                if fn.id == "len" and len(args) == 1 and isinstance(args[0], (tuple, list, str, dict, bytes, set, frozenset)):
                     return len(args[0])
+                if fn.id == "set" and len(args) <= 1 and fn.id not in self.env:
+                    try:
+                        return set(args[0]) if args else set()
+                    except TypeError:
+                        raise PyRaise("TypeError")
             if isinstance(fn, ast.Attribute):
                 try:
                     recv = self.ev(fn.value)
@@ -389,7 +402,7 @@ class Evaluator:
                     args = self.ev_args(e)
                     kw = {k.arg: self.ev(k.value) for k in e.keywords if k.arg}
                     return recv.fields["()" + fn.attr](*args, **kw)
-                if isinstance(recv, (list, dict, str, bytes, tuple, int)) and not isinstance(recv, (Record, bool)) and fn.attr in _SAFE_METHODS.get(type(recv).__name__, ()):
+                if isinstance(recv, (list, dict, str, bytes, tuple, int, set)) and not isinstance(recv, (Record, bool)) and fn.attr in _SAFE_METHODS.get(type(recv).__name__, ()):
                     args = self.ev_args(e)
                     kw = {k.arg: self.ev(k.value) for k in e.keywords if k.arg}
                     try:
@@ -414,6 +427,15 @@ class Evaluator:
                 r = self.call_hook(name, args, kw, self)
                 if r is not _MISSING:
                     return r
+            # a callable abstract value (e.g. an opcode class looked up in a table): evaluate the callee expression
+            try:
+                callee = self.ev(fn)
+            except Unsupported:
+                callee = None
+            if callee is not None and hasattr(callee, "sa_call"):
+                args = self.ev_args(e)
+                kw = {k.arg: self.ev(k.value) for k in e.keywords if k.arg}
+                return callee.sa_call(args, kw)
             raise Unsupported(f"call {ast.unparse(e)[:40]}")
         raise Unsupported(f"expression {type(e).__name__}")
 
